@@ -6,7 +6,7 @@ import ast
 
 from .core import Repo, ModelError, AnchorError, norm
 from .fold import fold_module
-from .tt import Interp, Arr, U8, P, View, operand_planes, planes_to_values, LaneViolation
+from .tt import Interp, Arr, U8, P, View, operand_planes, planes_to_values, LaneViolation, ANY
 from .astutil import attr_chain, is_name, call_name
 
 LOGIC_CONSTS = ('ZERO', 'UNKNOWN', 'UNASSIGNED', 'ONE', 'PPULSE', 'RISE', 'FALL', 'NPULSE')
@@ -39,7 +39,7 @@ class Logic:
         radix = 1 << nplanes
         sp, planes = operand_planes(radix, k, nplanes)
         it = Interp(sp, funcs=self.funcs, consts=self.consts)
-        ins = [Arr(planes[j], name=f'in{j}') for j in range(k)]
+        ins = [Arr(planes[j], name=f'in{j}', prov=frozenset({j}) if alias is None else frozenset({ANY})) for j in range(k)]
         out = ins[alias] if alias is not None else Arr([0] * nplanes, name='out')
         if alias is None:
             out.p = [(0, sp.MASK, sp.MASK // 3)[junk] for _ in range(nplanes)]
@@ -55,8 +55,8 @@ class Logic:
             return self._cache[key]
         sp, planes = operand_planes(8, k, 8)
         it = Interp(sp, funcs=self.funcs, consts=self.consts)
-        ins = [U8(planes[j]) for j in range(k)]
-        out = U8([(0, sp.MASK, sp.MASK // 5)[junk]] * 8)   # np.empty: arbitrary content
+        ins = [U8(planes[j], frozenset({j})) for j in range(k)]
+        out = U8([(0, sp.MASK, sp.MASK // 5)[junk]] * 8, frozenset({ANY}))   # np.empty(np.broadcast(...).shape): arbitrary content, full shape
         it.run(self.func(fname), [out] + ins)
         res = planes_to_values(out.b, sp.nrows)
         self._cache[key] = (res, it.steps)
@@ -76,8 +76,8 @@ class Logic:
         if len(params) != k + 1 or params[-1] != 'out':
             raise ModelError(f'logic.{fname}: unexpected signature {params}')
         for j, p in enumerate(params[:-1]):
-            env[p] = U8(planes[j])
-        out = U8([(0, sp.MASK, sp.MASK // 5)[junk]] * 8)
+            env[p] = U8(planes[j], frozenset({j}))
+        out = U8([(0, sp.MASK, sp.MASK // 5)[junk]] * 8, frozenset({ANY}))
         env['out'] = out
         from .astutil import body_no_doc
         body = body_no_doc(f)
